@@ -73,6 +73,17 @@ func HostPool() *hist.Pool {
 	}
 }
 
+// Infix2Pool: keys with two infix catch-alls inside one tree node (nested precomputed sub-nodes)
+// with leaves below them.
+func Infix2Pool() *hist.Pool {
+	return &hist.Pool{
+		Methods:    []string{"GET"},
+		Patterns:   []string{"/*{x}/b/*{y}/c", "/*{x}/b/*{y}/cd", "/*{x}/b/*{y}/c/e", "/*{x}/b/*{y}/cde", "/*{x}/b", "/*{x}/b/*{y}/c/e/f"},
+		BadMethod:  "get",
+		BadPattern: "/*{x",
+	}
+}
+
 // Case is a replayable C02 case: an operation list whose last operation is the one checked.
 type Case struct {
 	Quick    bool      `json:"quick"`
@@ -109,6 +120,8 @@ func PoolNamed(name string, quick bool) *hist.Pool {
 		return NestPool()
 	case "hosts":
 		return HostPool()
+	case "infix2":
+		return Infix2Pool()
 	case "prefixes-3-methods":
 		return PoolFor(false)
 	}
@@ -408,6 +421,7 @@ func run(c *mc.Ctx, r *mc.Result) {
 	add(func(r *mc.Result) { runBFS(c, r, "methods", MethodPool(), 3, false) })
 	add(func(r *mc.Result) { runBFS(c, r, "nested", NestPool(), sib-1, false) })
 	add(func(r *mc.Result) { runBFS(c, r, "hosts", HostPool(), sib-1, false) })
+	add(func(r *mc.Result) { runBFS(c, r, "infix2", Infix2Pool(), sib-1, false) })
 	add(func(r *mc.Result) { runFan(c, r) })
 	if c.Quick() {
 		add(func(r *mc.Result) { runBodies(c, r, "prefixes", PoolFor(true), 2, 2) })
@@ -573,6 +587,9 @@ func replay(c *mc.Ctx, raw json.RawMessage) string {
 	}
 	if cs.Pool == "hosts" {
 		p = HostPool()
+	}
+	if cs.Pool == "infix2" {
+		p = Infix2Pool()
 	}
 	if cs.Pool == "fan" {
 		// the pool is every pattern that occurs in the history
